@@ -36,6 +36,14 @@ func line(box orb.Bound, in orb.LineString, open bool) orb.MultiLineString {
 		}
 		endCode := codeB
 
+		// an end point is clipped at most twice, against one horizontal and
+		// one vertical edge. If it is still outside after that the exact point
+		// is on the box and float64 rounding has put it a hair outside; clipping
+		// again could go on for ever (alternating between two edges at a corner).
+		// It is snapped onto the box instead and, like every clipped point (open
+		// bound too), gets the closed code of a point of the box: 0.
+		clipsA, clipsB := 0, 0
+
 		// loops through all the intersection of the line and box.
 		// eg. across a corner could have two intersections.
 		for {
@@ -57,10 +65,28 @@ func line(box orb.Bound, in orb.LineString, open bool) orb.MultiLineString {
 				break
 			} else if codeA != 0 {
 				// A is outside, B is inside, clip edge
+				if clipsA == 2 {
+					a = clampToBound(box, a)
+					codeA = 0
+					continue
+				}
+				clipsA++
 				a = intersect(box, codeA, a, b)
 				codeA = bitCode(box, a)
 			} else {
 				// B is outside, A is inside, clip edge
+				if open && clipsB == 0 && bitCode(box, b) == 0 {
+					// open bound: b is a vertex on the boundary, so it is its own
+					// intersection. Recomputing it could move it by a rounding error.
+					codeB = 0
+					continue
+				}
+				if clipsB == 2 {
+					b = clampToBound(box, b)
+					codeB = 0
+					continue
+				}
+				clipsB++
 				b = intersect(box, codeB, a, b)
 				codeB = bitCode(box, b)
 			}
@@ -70,6 +96,23 @@ func line(box orb.Bound, in orb.LineString, open bool) orb.MultiLineString {
 	}
 
 	return out
+}
+
+// clampToBound moves a point that rounding left marginally outside the bound onto it.
+func clampToBound(box orb.Bound, p orb.Point) orb.Point {
+	if p[0] < box.Min[0] {
+		p[0] = box.Min[0]
+	} else if p[0] > box.Max[0] {
+		p[0] = box.Max[0]
+	}
+
+	if p[1] < box.Min[1] {
+		p[1] = box.Min[1]
+	} else if p[1] > box.Max[1] {
+		p[1] = box.Max[1]
+	}
+
+	return p
 }
 
 func push(out orb.MultiLineString, i int, p orb.Point) orb.MultiLineString {
